@@ -22,7 +22,10 @@ TABLE = {
     T + "has_source": [["Ne(Not(0),arg1.raw.src_id)"], ["Ne(4294967295,arg1.raw.src_id)"]],
     T + "get_source": [["Option::None{}", "SourceMap::get_source(arg1.sm,arg1.raw.src_id)"]],
     T + "get_name": [["Option::None{}", "SourceMap::get_name(arg1.sm,arg1.raw.name_id)"]],
-    T + "has_name": [["Option::is_some(Token::get_name(arg1))"]],
+    T + "has_name": [["Option::is_some(Token::get_name(arg1))"],
+                     # the same without building the &str: false for the tombstone, otherwise "the id is inside the names table"
+                     # (get_name is the tombstone test followed by names.get(id), both decided in this table)
+                     ["0", "Lt(cast<usize>(arg1.raw.name_id),Vec::len(arg1.sm.names))"]],
     T + "get_dst": [["tuple(arg1.raw.dst_line,arg1.raw.dst_col)"]],
     T + "get_src": [["tuple(arg1.raw.src_line,Token::get_src_col(arg1))"]],
     T + "get_raw_token": [["arg1.raw"]],
@@ -64,7 +67,8 @@ TABLE = {
     "<types::SourceMapSectionIter<'a> as core::iter::traits::iterator::Iterator>::next": [["Option::inspect(SourceMapIndex::get_section(arg1.i,arg1.next_idx),closure:next::{closure#0})"],
                                                                               ["FromResidual::from_residual(break(Try::branch(SourceMapIndex::get_section(arg1.i,arg1.next_idx))))", "Option::Some{0:try(SourceMapIndex::get_section(arg1.i,arg1.next_idx))}"]],
     "<types::SourceContentsIter<'a> as core::iter::traits::iterator::Iterator>::next": [["Option::None{}", "Option::Some{0:SourceMap::get_source_contents(arg1.i,arg1.next_idx)}"]],
-    "<types::Token<'_> as core::cmp::PartialEq>::eq": [["PartialEq::eq(arg1.raw,arg2.raw)"]],
+    "<types::Token<'_> as core::cmp::PartialEq>::eq": [["PartialEq::eq(arg1.raw,arg2.raw)"],
+                                                       ["1", "PartialEq::eq(arg1.raw,arg2.raw)"]],  # with a same-object shortcut (guarded below)
     "builder::SourceMapBuilder::get_source": [["slice::get(arg1.sources,cast<usize>(arg2))"]],
     "builder::SourceMapBuilder::get_file": [["Option::as_ref(arg1.file)"]],
     "builder::SourceMapBuilder::get_source_root": [["Option::as_ref(arg1.source_root)"]],
@@ -75,6 +79,9 @@ GUARDS = {
     # (path, returned shape) -> fact that must dominate that return
     (T + "get_source", "Option::None{}"): ("Eq", "Not(0)", "arg1.raw.src_id"),
     (T + "get_name", "Option::None{}"): ("Eq", "Not(0)", "arg1.raw.name_id"),
+    (T + "has_name", "0"): ("Eq", "Not(0)", "arg1.raw.name_id"),
+    (T + "has_name", "Lt(cast<usize>(arg1.raw.name_id),Vec::len(arg1.sm.names))"): ("Ne", "Not(0)", "arg1.raw.name_id"),
+    ("<types::Token<'_> as core::cmp::PartialEq>::eq", "1"): ("true", "ptr::eq(arg1.raw,arg2.raw)", None),
     ("<types::SourceContentsIter<'a> as core::iter::traits::iterator::Iterator>::next", "Option::None{}"): ("Le", "SourceMap::get_source_count(arg1.i)", "arg1.next_idx"),
 }
 
